@@ -46,6 +46,7 @@ type sigRun struct {
 	rps     int
 	inst    int
 	pipe    bool // the result destination is a FIFO that the driver reads slowly (a slow sink)
+	gmp     int  // GOMAXPROCS of the pandora process (0: default)
 }
 
 // slowPipe: a FIFO with a one-page buffer that is drained at a few MB/s: the aggregator's flush of
@@ -163,12 +164,15 @@ log: {level: error}
 		panic(err)
 	}
 	w.Emit(map[string]interface{}{"ev": "Start", "run": cfg.run, "kind": cfg.kind, "sig": cfg.sig,
-		"after_ms": cfg.afterMs, "q": cfg.q, "rps": cfg.rps, "inst": cfg.inst, "pipe": cfg.pipe})
+		"after_ms": cfg.afterMs, "q": cfg.q, "rps": cfg.rps, "inst": cfg.inst, "pipe": cfg.pipe, "gomaxprocs": cfg.gmp})
 	logf, _ := os.Create(filepath.Join(dir, "pandora.log"))
 	defer logf.Close()
 	cmd := exec.Command(bin, confPath)
 	cmd.Dir = dir
 	cmd.Env = append(os.Environ(), "VPANDORA_DIR="+dir)
+	if cfg.gmp > 0 {
+		cmd.Env = append(cmd.Env, fmt.Sprintf("GOMAXPROCS=%d", cfg.gmp))
+	}
 	cmd.Stdout = logf
 	cmd.Stderr = logf
 	if err := cmd.Start(); err != nil {
@@ -335,6 +339,7 @@ func aggSigMain(args []string) {
 			cfg.q = 1 + r.Intn(4) // small queue: drops happen and must be counted
 		}
 		cfg.pipe = (n/3)%2 == 0
+		cfg.gmp = []int{0, 1, 0, 2}[n%4]
 		cfgs = append(cfgs, cfg)
 	}
 	sem := make(chan struct{}, *par)
